@@ -510,7 +510,7 @@ def run(tier, t0):
     level = 2 if tier == "quick" else 3
     conds = conditions(level)
     indexed = list(enumerate(conds))
-    # the depth<=2 conditions run on 8 valuations (4..7: objects with unusual __eq__ / truth value), the deeper ones on 4
+    # the depth<=2 conditions run on 9 valuations (4..8: objects with unusual __eq__ / truth value), the deeper ones on 4
     small = {c[3] for c in conditions(2)} if level > 2 else None
     ex = [it for it in indexed if small is None or it[1][3] in small]
     rest = [it for it in indexed if small is not None and it[1][3] not in small]
@@ -520,8 +520,8 @@ def run(tier, t0):
     return core.finish(
         PROP, tier, tot, t0,
         rule="typed expression grammar ({} expressions: depth<=1 complete, all parent/child pairs{}) x 6 falsifying frames (depth<=1 also in 3 frames that use a defaulted parameter of the condition itself) x 4 "
-             "valuations (depth<=2 conditions: 8 valuations, four of them binding x, y, the elements of xs and o.v to objects with an unusual "
-             "__eq__ or truth value: equal-to-everything, element-wise ==, never-equal, nan); kept: every (condition, valuation) CPython evaluates falsy without raising; roles rotate over "
+             "valuations (depth<=2 conditions: 9 valuations, five of them binding x, y, the elements of xs and o.v to objects with an unusual "
+             "__eq__ or truth value: equal-to-everything, element-wise ==, never-equal, nan, an int sub-class whose comparisons answer 0 or 1 instead of a bool); kept: every (condition, valuation) CPython evaluates falsy without raising; roles rotate over "
              "require/ensure/invariant. The real message is parsed into '<text> was <repr>' lines and all()-blocks; soundness: "
              "each text is a sub-expression Python evaluated (or a call argument) and the repr equals a_repr.repr of a value it "
              "took; the all()-example is the first falsifying assignment; completeness: every representable argument and every "
